@@ -64,7 +64,7 @@ func ruleSameCanonicaliser(c *Ctx, rule string, pk *packages.Package, min int) {
 						if idx < 0 || idx >= len(cs.Call.Args) {
 							continue
 						}
-						same := dependsOnCall(cs.Call.Args[idx], func(cc *ssa.CallCommon) bool { return cc.StaticCallee() == canon })
+						same := dependsOnCallUpDeep(p, cs.Call.Args[idx], func(cc *ssa.CallCommon) bool { return cc.StaticCallee() == canon }, 2)
 						n++
 						c.Ob(rule, fmt.Sprintf("%s(%s)/caller#%d", ssaFuncName(sf), prm.Name(), k+1), cs.Pos(), same, true,
 							"%s compares %s(…) with its parameter %s; this caller prepared the argument with %s too: %v", sf.Name(), canon.Name(), prm.Name(), canon.Name(), same)
